@@ -431,6 +431,14 @@ impl State {
                     made invalid back then.  For expert nodes, the argument is the same, except
                     that instead of lhs-change nodes make the expert nodes stale, it's made stale
                     explicitely when adding or removing children. */
+                    /* ... unless the node stopped being necessary after it was pushed: its only
+                    parent, pushed later (it also found an invalid child while being linked), was
+                    invalidated earlier in this loop and let go of it. An unnecessary node must
+                    not enter the recompute heap; it meets its invalid child again when it next
+                    becomes necessary. */
+                    if !node.is_necessary() {
+                        continue;
+                    }
                     debug_assert!(node.needs_to_be_computed());
 
                     // ...
